@@ -514,42 +514,135 @@ func runC15(c *Ctx) {
 	c.Floor("retry wrapper KV overrides", n, 11)
 
 	ro := c.Func("spec/chord", "retryableWrapper", "retryOptions")
-	want := map[string]func(call *ast.CallExpr) bool{
-		"Context":       func(call *ast.CallExpr) bool { return ro.Prov(call.Args[0]) == "param#0" },
-		"Attempts":      func(call *ast.CallExpr) bool { return ro.Prov(call.Args[0]) == "recv.retryAttempts" },
-		"RetryIf":       func(call *ast.CallExpr) bool { return ro.Prov(call.Args[0]) == "global:spec/chord.ErrorIsRetryable" || ro.ObjOf(call.Args[0]) == p.Types.Scope().Lookup("ErrorIsRetryable") },
-		"LastErrorOnly": func(call *ast.CallExpr) bool { v, _ := ro.ConstVal(call.Args[0]); return v == "true" },
+	// The options every retried call runs under: every retry.X(...) call that can be an
+	// element of the slice retryOptions returns - elements of a literal, arguments of append,
+	// and (through a field of the wrapper) the elements given to that field wherever the
+	// package builds a wrapper. Each is judged in the function it is written in.
+	type optCall struct {
+		g    *Fn
+		call *ast.CallExpr
 	}
-	got := map[string]bool{}
-	var lit *ast.CompositeLit
+	var opts []optCall
+	seenExpr := map[ast.Expr]bool{}
+	var collect func(g *Fn, e ast.Expr, depth int)
+	collect = func(g *Fn, e ast.Expr, depth int) {
+		e = ast.Unparen(e)
+		if e == nil || seenExpr[e] || depth > 6 {
+			return
+		}
+		seenExpr[e] = true
+		switch x := e.(type) {
+		case *ast.CompositeLit:
+			for _, el := range x.Elts {
+				if call, ok := ast.Unparen(el).(*ast.CallExpr); ok {
+					opts = append(opts, optCall{g, call})
+				}
+			}
+		case *ast.CallExpr:
+			if id, ok := x.Fun.(*ast.Ident); ok && id.Name == "append" && len(x.Args) >= 1 {
+				collect(g, x.Args[0], depth+1)
+				for i, a := range x.Args[1:] {
+					if x.Ellipsis.IsValid() && i == len(x.Args)-2 {
+						collect(g, a, depth+1)
+					} else if call, ok := ast.Unparen(a).(*ast.CallExpr); ok {
+						opts = append(opts, optCall{g, call})
+					}
+				}
+			}
+		case *ast.Ident:
+			if v := g.varOf(x); v != nil {
+				for _, d := range g.defsOf(v) {
+					if d.rhs != nil {
+						collect(g.enclosing(d.rhs), d.rhs, depth+1)
+					}
+				}
+			}
+		case *ast.SelectorExpr:
+			fk := g.FieldKey(x)
+			if fk == "" {
+				return
+			}
+			for _, fn := range c.AllFuncs("spec/chord") {
+				if isTestFile(c.Fset, fn.Decl.Pos()) {
+					continue
+				}
+				ast.Inspect(fn.Body, func(n ast.Node) bool {
+					switch y := n.(type) {
+					case *ast.KeyValueExpr:
+						if id, ok := y.Key.(*ast.Ident); ok {
+							if fv, ok := fn.Info.ObjectOf(id).(*types.Var); ok && fv.IsField() && fieldKeyOfVar(fv) == fk {
+								collect(fn.enclosing(y), y.Value, depth+1)
+							}
+						}
+					case *ast.AssignStmt:
+						for i, l := range y.Lhs {
+							if fn.enclosing(y).FieldKey(l) == fk && i < len(y.Rhs) {
+								collect(fn.enclosing(y), y.Rhs[i], depth+1)
+							}
+						}
+					}
+					return true
+				})
+			}
+		}
+	}
+	var retPos token.Pos = ro.Decl.Pos()
 	for _, r := range ro.Returns() {
 		if len(r.Results) == 1 {
-			lit, _ = ast.Unparen(r.Results[0]).(*ast.CompositeLit)
+			retPos = r.Pos()
+			collect(ro, r.Results[0], 0)
 		}
 	}
-	if lit == nil {
-		c.Failf("retryOptions does not return a composite literal (undecided)")
+	if len(opts) == 0 {
+		c.Failf("retryOptions: no retry option could be traced into the returned slice (undecided)")
 	}
-	for _, el := range lit.Elts {
-		call, ok := el.(*ast.CallExpr)
-		if !ok {
-			continue
+	wr := c.Func("spec/chord", "", "WrapRetryKV")
+	// the attempt bound is the constructor's third parameter: directly, or through a field
+	// the constructor initialises with it
+	isAttemptBound := func(g *Fn, e ast.Expr) bool {
+		pv := g.Prov(e)
+		if g == wr || g.root() == wr {
+			return pv == "param#2"
 		}
-		o := ro.Callee(call)
+		if !strings.HasPrefix(pv, "recv.") {
+			return false
+		}
+		okInit := false
+		ast.Inspect(wr.Body, func(n ast.Node) bool {
+			if kv, ok := n.(*ast.KeyValueExpr); ok {
+				if id, ok := kv.Key.(*ast.Ident); ok && "recv."+id.Name == pv && wr.Prov(kv.Value) == "param#2" {
+					okInit = true
+				}
+			}
+			return true
+		})
+		return okInit
+	}
+	want := map[string]func(g *Fn, call *ast.CallExpr) bool{
+		"Context":  func(g *Fn, call *ast.CallExpr) bool { return g == ro && g.Prov(call.Args[0]) == "param#0" },
+		"Attempts": func(g *Fn, call *ast.CallExpr) bool { return isAttemptBound(g, call.Args[0]) },
+		"RetryIf": func(g *Fn, call *ast.CallExpr) bool {
+			return g.Prov(call.Args[0]) == "global:spec/chord.ErrorIsRetryable" || g.ObjOf(call.Args[0]) == p.Types.Scope().Lookup("ErrorIsRetryable")
+		},
+		"LastErrorOnly": func(g *Fn, call *ast.CallExpr) bool { v, _ := g.ConstVal(call.Args[0]); return v == "true" },
+	}
+	got := map[string]bool{}
+	for _, oc := range opts {
+		o := oc.g.Callee(oc.call)
 		if o == nil || o.Pkg() == nil || o.Pkg().Path() != "github.com/avast/retry-go/v4" {
 			continue
 		}
-		if chk, ok := want[o.Name()]; ok && len(call.Args) == 1 {
-			if chk(call) {
-				got[o.Name()] = true
-			} else {
-				got[o.Name()] = false
+		if chk, ok := want[o.Name()]; ok && len(oc.call.Args) == 1 {
+			v := chk(oc.g, oc.call)
+			if prev, seen := got[o.Name()]; seen {
+				v = v && prev // a second, different setting of the same option is not accepted
 			}
+			got[o.Name()] = v
 		}
 	}
 	for name := range want {
 		v, present := got[name]
-		c.Ob("retry-options", "retryOptions#"+name, lit.Pos(), present && v, "retryOptions contains retry."+name+" with the expected argument")
+		c.Ob("retry-options", "retryOptions#"+name, retPos, present && v, "retryOptions contains retry."+name+" with the expected argument")
 	}
 	// production call sites
 	ncs := 0
@@ -687,4 +780,29 @@ func splitAlts(pv string) []string {
 		}
 	}
 	return append(out, pv[start:])
+}
+
+// fieldKeyOfVar renders a struct field as FieldKey does ("pkg.Type.field"), from the field
+// object alone.
+func fieldKeyOfVar(fv *types.Var) string {
+	if fv.Pkg() == nil {
+		return ""
+	}
+	sc := fv.Pkg().Scope()
+	for _, nm := range sc.Names() {
+		tn, ok := sc.Lookup(nm).(*types.TypeName)
+		if !ok {
+			continue
+		}
+		st, ok := tn.Type().Underlying().(*types.Struct)
+		if !ok {
+			continue
+		}
+		for i := 0; i < st.NumFields(); i++ {
+			if st.Field(i) == fv {
+				return relPkg(fv.Pkg().Path()) + "." + tn.Name() + "." + fv.Name()
+			}
+		}
+	}
+	return ""
 }
